@@ -506,6 +506,35 @@ def longest_path_call(m, f):
     raise AnalysisError("critical_path: the longest-path call was not found")
 
 
+def validation_gate(db, m):
+    """[abstract run] critical_path() with _validate_graph hooked to return False: True if no explored run reaches the longest-path search or returns success,
+    False if one does, None if the method could not be evaluated"""
+    from ..core.interp import Interp
+    from ..core.values import Obj
+    seen = {"search": 0, "validate": 0}
+
+    def hook(I, name, pos, kw, node):
+        last = name.split(".")[-1]
+        if last == "_validate_graph":
+            seen["validate"] += 1
+            return False
+        if last in ("dag_longest_path", "dag_longest_path_length"):
+            seen["search"] += 1
+            return [0, 1]
+        return NotImplemented
+    try:
+        runs = Interp(db, call_hook=hook).explore(f"{m.name}:CPGraph.critical_path", lambda I: {"self": Obj("self", cls=(m, "CPGraph"), attrs={"critical_path_nodes": [7], "critical_path_events_set": {99}, "critical_path_edges_set": set(), "node_list": [], "edges": {}})})
+    except AnalysisError:
+        return None
+    if not runs or not seen["validate"]:
+        return None
+    if seen["search"] or any(r.raised is None and r.ret is True for r in runs):
+        return False
+    if all(r.raised is not None or r.ret is False for r in runs):
+        return True
+    return None
+
+
 def _validation(db, chk, m):
     rule = "C08.R4-validation"
     f = m.func("CPGraph.critical_path")
@@ -514,8 +543,11 @@ def _validation(db, chk, m):
     guard = [s for s in body if isinstance(s, ast.If) and "_validate_graph" in ast.unparse(s.test)]
     ok = len(lp) == 1 and len(guard) == 1 and isinstance(guard[0].test, ast.UnaryOp) and isinstance(guard[0].test.op, ast.Not) and any(isinstance(x, ast.Raise) for x in guard[0].body) \
         and guard[0].lineno < lp[0].lineno
-    chk.ob(rule, "critical_path validates the graph first and raises when validation fails, before the longest-path computation", ok, m.loc(f), found=[ast.unparse(g.test) for g in guard],
-           accepted="if not self._validate_graph(): raise ...  (top level, before nx.dag_longest_path)")
+    gate = validation_gate(db, m)
+    # decided by an abstract run (validation hooked to FAIL: no run may reach the search or report success); the shape of the guard is a diagnostic that defers to it
+    chk.ob(rule, "critical_path validates the graph first and raises when validation fails, before the longest-path computation", gate if gate is not None else (True if ok else None), m.loc(f),
+           found={"guards": [ast.unparse(g.test) for g in guard], "abstract run with a failing validation": {True: "the search is never reached, no success reported", False: "the search is reached or success is reported", None: "not evaluated"}[gate]},
+           accepted="if not self._validate_graph(): raise ...  before nx.dag_longest_path (in critical_path or a helper)", why="a longest path computed on a graph with a cycle or negative weights is meaningless")
     v = m.func("CPGraph._validate_graph")
     # decided by abstract runs of _validate_graph on one-edge graphs: the verdict it returns for each kind of defect
     ref = f"{CP}:CPGraph._validate_graph"
